@@ -46,12 +46,66 @@ func escapeRules(p *core.Program, r *core.Report) {
 			continue
 		}
 		var best []decCase
+		// the same table written as two parallel constant strings: `i := strings.IndexByte(KEYS, c)`
+		// … `VALUES[i]`: escape letter KEYS[j] decodes to VALUES[j]
+		var extra []decCase
+		var extraKey types.Object
+		ast.Inspect(fd.Body, func(n ast.Node) bool {
+			as, ok := n.(*ast.AssignStmt)
+			if !ok || len(as.Lhs) != 1 || len(as.Rhs) != 1 {
+				return true
+			}
+			c, ok := eng.Unparen(as.Rhs[0]).(*ast.CallExpr)
+			iv, ok2 := as.Lhs[0].(*ast.Ident)
+			if !ok || !ok2 || len(c.Args) != 2 {
+				return true
+			}
+			fn := eng.CalleeOf(info, c)
+			if fn == nil || fn.Pkg() == nil || fn.Pkg().Path() != "strings" || (fn.Name() != "IndexByte" && fn.Name() != "IndexRune") {
+				return true
+			}
+			keys, ok := constStringOf(info, c.Args[0])
+			if !ok {
+				return true
+			}
+			ivObj := objOf(info, iv)
+			ast.Inspect(fd.Body, func(m ast.Node) bool {
+				ix, ok := m.(*ast.IndexExpr)
+				if !ok {
+					return true
+				}
+				id, ok := eng.Unparen(ix.Index).(*ast.Ident)
+				if !ok || info.Uses[id] != ivObj {
+					return true
+				}
+				vals, ok := constStringOf(info, ix.X)
+				if !ok || len(vals) != len(keys) {
+					return true
+				}
+				for j := 0; j < len(keys); j++ {
+					if keys[j] >= 0x80 || vals[j] >= 0x80 {
+						return true // byte and rune positions differ: not read
+					}
+				}
+				for j := 0; j < len(keys); j++ {
+					extra = append(extra, decCase{rune(keys[j]), int64(vals[j]), ix.Pos()})
+				}
+				if kid, ok := eng.Unparen(c.Args[1]).(*ast.Ident); ok {
+					extraKey = info.Uses[kid]
+				}
+				return true
+			})
+			return true
+		})
 		ast.Inspect(fd.Body, func(n ast.Node) bool {
 			sw, ok := n.(*ast.SwitchStmt)
 			if !ok || sw.Tag == nil {
 				return true
 			}
 			var cs []decCase
+			if tid, ok := eng.Unparen(sw.Tag).(*ast.Ident); ok && extraKey != nil && info.Uses[tid] == extraKey {
+				cs = append(cs, extra...)
+			}
 			defErr := false
 			for _, c := range sw.Body.List {
 				cc := c.(*ast.CaseClause)
@@ -74,6 +128,10 @@ func escapeRules(p *core.Program, r *core.Report) {
 				}
 				v, ok := runeConst(info, as.Rhs[0])
 				if !ok {
+					continue
+				}
+				// the decoded character is a rune (a digit count `n = 2` is not a decoding)
+				if b, isB := info.TypeOf(as.Lhs[0]).Underlying().(*types.Basic); !isB || b.Kind() != types.Int32 {
 					continue
 				}
 				for _, ex := range cc.List {
